@@ -1,5 +1,638 @@
-//! sim core (filled in below)
-pub mod c19b {
-    use crate::util::{Ctx, Report};
-    pub fn run(_ctx: &Ctx, _rep: &mut Report) {}
+//! Layer A — deterministic in-process simulation: the real `Session` (through the hook-side
+//! mirror of its event loop) and real `PeerHandler` tasks on a current-thread tokio runtime with a
+//! paused clock, in-memory sockets, a scripted tracker and scripted peers that speak through the
+//! harness' own BEP3 codec. Everything observable is appended to one totally ordered log.
+
+use crate::torrent::Torrent;
+use crate::util::{panics, sha1, Rng};
+use crate::wire::{take_msg, Msg, StreamParser, Take, PROTO};
+use rdest::verif::{self as hooks, Dial, Snapshot, VerifCtl, VerifEvent};
+use rdest::Session;
+use std::cell::RefCell;
+use std::collections::{BTreeMap, HashMap};
+use std::future::Future;
+use std::path::{Path, PathBuf};
+use std::pin::Pin;
+use std::rc::Rc;
+use tokio::io::{AsyncReadExt, AsyncWriteExt, DuplexStream, ReadHalf, WriteHalf};
+use tokio::sync::mpsc;
+use tokio::time::{Duration, Instant};
+
+pub mod peers;
+pub mod c19b;
+
+pub const OWN_ID: [u8; 20] = *b"-RD0001-verifclient0";
+
+/// State of the piece files in the client's directory at one moment.
+#[derive(Debug, Clone, Default, PartialEq)]
+pub struct DiskSnap {
+    /// indices whose `<HASH>.piece` exists with exactly the right bytes
+    pub valid: Vec<usize>,
+    /// `*.piece` files that are not a valid piece of the torrent: (name, len)
+    pub invalid: Vec<(String, u64)>,
+}
+
+#[derive(Debug, Clone)]
+pub enum EvKind {
+    /// the client is about to write this message on `addr`
+    Send { msg: Msg, len: usize },
+    /// the client's decoder waits for more bytes while retaining `buffered`
+    RecvWait { buffered: usize },
+    /// the manager handled an event; `after` = its state now
+    Mgr { kind: &'static str, arg: Option<usize>, text: String, after: Rc<Snapshot> },
+    /// a scripted peer wrote `msg` (or raw bytes) towards the client
+    PeerSent { msg: Option<Msg>, raw_len: usize },
+    /// a scripted peer received a complete message from the client
+    PeerGot { msg: Msg },
+    /// the peer saw the client close the connection / closed it itself
+    PeerSawClose,
+    PeerClosed,
+    /// disk state taken synchronously when the preceding event happened
+    Disk { snap: DiskSnap },
+    /// free-form note from a persona or the driver
+    Note { text: String },
+}
+
+#[derive(Debug, Clone)]
+pub struct Ev {
+    pub seq: u64,
+    pub ms: u64,
+    pub addr: String,
+    /// connection instance of `addr` this event belongs to (0 = none)
+    pub conn: u32,
+    pub kind: EvKind,
+}
+
+pub struct LogInner {
+    pub t0: Instant,
+    pub events: Vec<Ev>,
+    pub conn_of: HashMap<String, u32>,
+    pub next_conn: u32,
+    pub dir: PathBuf,
+    pub torrent: Rc<Torrent>,
+    disk_cache: HashMap<String, (u64, std::time::SystemTime, bool)>,
+    /// which events trigger a synchronous disk scan
+    pub disk_on: fn(&EvKind) -> bool,
+    pub extractor_done: bool,
+    pub extractor_text: Option<String>,
+    pub mgr_events: u64,
+}
+
+#[derive(Clone)]
+pub struct Log(pub Rc<RefCell<LogInner>>);
+
+impl Log {
+    pub fn now_ms(&self) -> u64 {
+        let l = self.0.borrow();
+        Instant::now().duration_since(l.t0).as_millis() as u64
+    }
+
+    pub fn push(&self, addr: &str, kind: EvKind) {
+        let seq = hooks::next_seq();
+        self.push_seq(seq, addr, kind);
+    }
+
+    fn push_seq(&self, seq: u64, addr: &str, kind: EvKind) {
+        let mut l = self.0.borrow_mut();
+        let ms = Instant::now().duration_since(l.t0).as_millis() as u64;
+        let conn = l.conn_of.get(addr).copied().unwrap_or(0);
+        let want_disk = (l.disk_on)(&kind);
+        if let EvKind::Mgr { kind: k, text, .. } = &kind {
+            l.mgr_events += 1;
+            if *k == "ExtractorDone" || *k == "ExtractorFail" {
+                l.extractor_done = true;
+                l.extractor_text = Some(format!("{} {}", k, text));
+            }
+        }
+        l.events.push(Ev { seq, ms, addr: addr.to_string(), conn, kind });
+        if want_disk {
+            let snap = scan_disk(&mut l);
+            let seq = hooks::next_seq();
+            l.events.push(Ev { seq, ms, addr: addr.to_string(), conn, kind: EvKind::Disk { snap } });
+        }
+    }
+
+    pub fn note(&self, addr: &str, text: impl Into<String>) {
+        self.push(addr, EvKind::Note { text: text.into() });
+    }
+
+    pub fn new_conn(&self, addr: &str) -> u32 {
+        let mut l = self.0.borrow_mut();
+        l.next_conn += 1;
+        let c = l.next_conn;
+        l.conn_of.insert(addr.to_string(), c);
+        c
+    }
+
+    pub fn disk_now(&self) -> DiskSnap {
+        scan_disk(&mut self.0.borrow_mut())
+    }
+}
+
+/// Scan `*.piece` files of the client's directory. A file that looks invalid is re-read until its
+/// content is stable (a concurrent `fs::write` on the blocking pool may be in flight): only a
+/// stable mismatch is reported.
+fn scan_disk(l: &mut LogInner) -> DiskSnap {
+    let mut snap = DiskSnap::default();
+    let rd = match std::fs::read_dir(&l.dir) { Ok(r) => r, Err(_) => return snap };
+    for e in rd.flatten() {
+        let name = e.file_name().to_string_lossy().to_string();
+        if !name.ends_with(".piece") {
+            continue;
+        }
+        let md = match e.metadata() { Ok(m) => m, Err(_) => continue };
+        let key = (md.len(), md.modified().unwrap_or(std::time::UNIX_EPOCH));
+        let idx = l.torrent.index_of_hash_name(&name);
+        if let Some((len, mt, ok)) = l.disk_cache.get(&name) {
+            if *len == key.0 && *mt == key.1 && *ok {
+                if let Some(i) = idx { snap.valid.push(i); }
+                continue;
+            }
+        }
+        let mut ok = false;
+        let mut last: Option<Vec<u8>> = None;
+        for attempt in 0..40 {
+            let data = std::fs::read(e.path()).unwrap_or_default();
+            ok = match idx { Some(i) => sha1(&data) == l.torrent.hashes[i] && data == l.torrent.piece(i), None => false };
+            if ok { break; }
+            if attempt >= 3 && last.as_ref() == Some(&data) { break; } // stable and wrong
+            last = Some(data);
+            std::thread::sleep(std::time::Duration::from_millis(2));
+        }
+        if ok {
+            let md2 = e.metadata().ok();
+            if let Some(m2) = md2 { l.disk_cache.insert(name.clone(), (m2.len(), m2.modified().unwrap_or(std::time::UNIX_EPOCH), true)); }
+            snap.valid.push(idx.unwrap());
+        } else {
+            snap.invalid.push((name, md.len()));
+        }
+    }
+    snap.valid.sort();
+    snap
+}
+
+/// I/O handle of one scripted peer connection.
+pub struct PeerIo {
+    pub addr: String,
+    pub conn: u32,
+    pub log: Log,
+    rd: ReadHalf<DuplexStream>,
+    wr: Option<WriteHalf<DuplexStream>>,
+    parser: StreamParser,
+    pending: std::collections::VecDeque<Msg>,
+    pub rng: Rng,
+    pub torrent: Rc<Torrent>,
+    /// how outgoing messages are cut into writes: 0 = one write per message
+    pub chunk: usize,
+    pub eof: bool,
+}
+
+impl PeerIo {
+    pub async fn send(&mut self, m: &Msg) -> bool {
+        let bytes = m.encode();
+        self.log.push(&self.addr, EvKind::PeerSent { msg: Some(m.clone()), raw_len: bytes.len() });
+        self.write(&bytes).await
+    }
+
+    pub async fn send_raw(&mut self, bytes: &[u8]) -> bool {
+        self.log.push(&self.addr, EvKind::PeerSent { msg: None, raw_len: bytes.len() });
+        self.write(bytes).await
+    }
+
+    async fn write(&mut self, bytes: &[u8]) -> bool {
+        let chunk = self.chunk;
+        let wr = match self.wr.as_mut() { Some(w) => w, None => return false };
+        if chunk == 0 {
+            return wr.write_all(bytes).await.is_ok();
+        }
+        for c in bytes.chunks(chunk) {
+            if wr.write_all(c).await.is_err() { return false; }
+            tokio::task::yield_now().await;
+        }
+        true
+    }
+
+    /// Next complete message written by the client; None when the client closed.
+    pub async fn recv(&mut self) -> Option<Msg> {
+        loop {
+            if let Some(m) = self.pending.pop_front() {
+                self.log.push(&self.addr, EvKind::PeerGot { msg: m.clone() });
+                return Some(m);
+            }
+            if self.eof { return None; }
+            let mut buf = [0u8; 16384];
+            match self.rd.read(&mut buf).await {
+                Ok(0) | Err(_) => {
+                    self.eof = true;
+                    self.log.push(&self.addr, EvKind::PeerSawClose);
+                    return None;
+                }
+                Ok(n) => {
+                    let msgs = self.parser.push(&buf[..n]);
+                    if let Some(b) = &self.parser.bad {
+                        self.log.note(&self.addr, format!("client wrote malformed data: {}", b));
+                    }
+                    self.pending.extend(msgs);
+                }
+            }
+        }
+    }
+
+    /// recv with a virtual-time limit: Err(()) on timeout.
+    pub async fn recv_within(&mut self, ms: u64) -> Result<Option<Msg>, ()> {
+        match tokio::time::timeout(Duration::from_millis(ms), self.recv()).await {
+            Ok(m) => Ok(m),
+            Err(_) => Err(()),
+        }
+    }
+
+    pub fn close(&mut self) {
+        if self.wr.take().is_some() {
+            self.log.push(&self.addr, EvKind::PeerClosed);
+        }
+    }
+
+    /// Half-close our writing side is not expressible with duplex halves other than by dropping;
+    /// dropping `wr` makes the client read EOF.
+    pub fn is_open(&self) -> bool {
+        self.wr.is_some()
+    }
+}
+
+pub type Behaviour = Box<dyn FnOnce(PeerIo) -> Pin<Box<dyn Future<Output = ()>>>>;
+
+pub enum Entry {
+    /// listed by the tracker (from announce number `from_announce` on) and dialled by the client
+    Dialled { from_announce: u64 },
+    /// connects to the client at this virtual time
+    Incoming { at_ms: u64 },
+}
+
+pub struct PeerSpec {
+    pub addr: String,
+    /// the id the tracker announces for it (the persona may present another one)
+    pub id: [u8; 20],
+    pub entry: Entry,
+    /// creates the behaviour for the k-th connection of this peer (re-dials get a fresh one)
+    pub make: Box<dyn FnMut(u32) -> Option<Behaviour>>,
+    pub chunk: usize,
+    pub pipe: usize,
+}
+
+pub enum TrackerStep {
+    /// transport/HTTP error text
+    Fail(String),
+    /// raw body (garbage or failure reason)
+    Body(Vec<u8>),
+    /// a good reply listing the currently listable peers
+    Good,
+}
+
+pub struct SimCfg {
+    pub torrent: Rc<Torrent>,
+    pub peers: Vec<PeerSpec>,
+    /// outcome of announce #n; past the end: Good
+    pub tracker: Vec<TrackerStep>,
+    pub failpoints: Option<u64>,
+    pub max_virtual_ms: u64,
+    /// stop as soon as the extractor reported
+    pub stop_on_extract: bool,
+    /// keep running this long (virtual) after extraction before stopping
+    pub linger_ms: u64,
+    pub disk_on: fn(&EvKind) -> bool,
+    pub seed: u64,
+    /// extra driver logic run inside the simulation (gets the ctl channel)
+    pub driver: Option<Box<dyn FnOnce(Log, mpsc::Sender<VerifCtl>) -> Pin<Box<dyn Future<Output = ()>>>>>,
+}
+
+pub struct Outcome {
+    pub events: Vec<Ev>,
+    pub panics: Vec<String>,
+    pub session_panicked: bool,
+    pub session_alive_at_end: bool,
+    pub final_snapshot: Option<Snapshot>,
+    pub final_disk: DiskSnap,
+    /// recursive listing of the client directory at the end: rel path -> bytes
+    pub files: BTreeMap<PathBuf, Vec<u8>>,
+    pub end_ms: u64,
+    pub watchdog: bool,
+    pub extractor: Option<String>,
+    pub tracker_calls: u64,
+}
+
+pub fn disk_never(_: &EvKind) -> bool { false }
+
+pub fn disk_on_ownership(k: &EvKind) -> bool {
+    match k {
+        EvKind::Send { msg, .. } => matches!(msg, Msg::Have(_) | Msg::Bitfield(_) | Msg::Piece(..)),
+        EvKind::Mgr { kind, .. } => matches!(*kind, "PieceDone" | "KillReq" | "Init" | "ExtractorDone"),
+        _ => false,
+    }
+}
+
+fn parse_client_send(bytes: &[u8]) -> Msg {
+    let hs = bytes.len() == 68 && bytes[0] == 19 && &bytes[1..20] == PROTO;
+    match take_msg(bytes, hs) {
+        Take::Msg(m, n) if n == bytes.len() => m,
+        _ => Msg::Unknown(255, bytes.to_vec()),
+    }
+}
+
+pub fn tracker_body(peers: &[(String, [u8; 20])]) -> Vec<u8> {
+    let mut b = b"d8:intervali1800e5:peersl".to_vec();
+    for (addr, id) in peers {
+        let (ip, port) = addr.rsplit_once(':').unwrap();
+        b.extend_from_slice(format!("d2:ip{}:{}7:peer id20:", ip.len(), ip).as_bytes());
+        b.extend_from_slice(id);
+        b.extend_from_slice(format!("4:porti{}ee", port).as_bytes());
+    }
+    b.extend_from_slice(b"ee");
+    b
+}
+
+/// Run one scenario in a fresh sub-directory of `scratch` and return everything observed.
+pub fn run_sim(cfg: SimCfg, scratch: &Path, wall_limit_s: u64) -> Outcome {
+    let dir = scratch.join("cwd");
+    let _ = std::fs::remove_dir_all(&dir);
+    std::fs::create_dir_all(&dir).unwrap();
+    std::env::set_current_dir(&dir).unwrap();
+    let _ = panics::take();
+    let rt = tokio::runtime::Builder::new_current_thread().enable_time().start_paused(true).build().unwrap();
+    let local = tokio::task::LocalSet::new();
+    let wall0 = std::time::Instant::now();
+    let torrent = cfg.torrent.clone();
+    let metainfo = torrent.metainfo();
+    let max_ms = cfg.max_virtual_ms;
+    let stop_on_extract = cfg.stop_on_extract;
+    let linger = cfg.linger_ms;
+    let mut out = local.block_on(&rt, async move {
+        let log = Log(Rc::new(RefCell::new(LogInner {
+            t0: Instant::now(),
+            events: Vec::with_capacity(4096),
+            conn_of: HashMap::new(),
+            next_conn: 0,
+            dir: dir.clone(),
+            torrent: torrent.clone(),
+            disk_cache: HashMap::new(),
+            disk_on: cfg.disk_on,
+            extractor_done: false,
+            extractor_text: None,
+            mgr_events: 0,
+        })));
+        // --- hooks ---------------------------------------------------------------------------
+        let l2 = log.clone();
+        hooks::set_sink(Some(Box::new(move |ev| match ev {
+            VerifEvent::Send { seq, addr, bytes } => {
+                let msg = parse_client_send(&bytes);
+                l2.push_seq(seq, &addr, EvKind::Send { msg, len: bytes.len() })
+            }
+            VerifEvent::RecvWait { seq, addr, buffered } => l2.push_seq(seq, &addr, EvKind::RecvWait { buffered }),
+            VerifEvent::Manager { seq, kind, addr, arg, text, after } => {
+                l2.push_seq(seq, &addr, EvKind::Mgr { kind, arg, text, after: Rc::new(after) })
+            }
+        })));
+        if let Some(fs) = cfg.failpoints {
+            let mut fr = Rng::new(fs ^ 0xFA11);
+            hooks::set_failpoints(Some(Box::new(move |_name| match fr.below(8) {
+                0 => Some(0),
+                1 => Some(1 + fr.below(5)),
+                2 => Some(10 + fr.below(200)),
+                _ => None,
+            })));
+        } else {
+            hooks::set_failpoints(None);
+        }
+        // peers table shared by dialer, tracker script and incoming driver
+        struct Slot { spec: PeerSpec, conns: u32 }
+        let slots: Rc<RefCell<Vec<Slot>>> = Rc::new(RefCell::new(cfg.peers.into_iter().map(|spec| Slot { spec, conns: 0 }).collect()));
+        let (spawn_tx, mut spawn_rx) = mpsc::unbounded_channel::<Pin<Box<dyn Future<Output = ()>>>>();
+        tokio::task::spawn_local(async move {
+            while let Some(fut) = spawn_rx.recv().await {
+                tokio::task::spawn_local(fut);
+            }
+        });
+        let spawn_peer = {
+            let log = log.clone();
+            let torrent = torrent.clone();
+            let seed = cfg.seed;
+            move |slot: &mut Slot| -> Option<DuplexStream> {
+                slot.conns += 1;
+                let beh = (slot.spec.make)(slot.conns)?;
+                let (client_end, peer_end) = tokio::io::duplex(slot.spec.pipe.max(1024));
+                let conn = log.new_conn(&slot.spec.addr);
+                let (rd, wr) = tokio::io::split(peer_end);
+                let io = PeerIo {
+                    addr: slot.spec.addr.clone(),
+                    conn,
+                    log: log.clone(),
+                    rd,
+                    wr: Some(wr),
+                    parser: StreamParser::new(true),
+                    pending: Default::default(),
+                    rng: Rng::new(seed ^ crate::util::hash64(&(&slot.spec.addr, slot.conns))),
+                    torrent: torrent.clone(),
+                    chunk: slot.spec.chunk,
+                    eof: false,
+                };
+                // the dialer runs inside a plain `tokio::spawn` task: hand the (!Send) persona over
+                // to the LocalSet-owned spawner task
+                let _ = spawn_tx.send(beh(io));
+                Some(client_end)
+            }
+        };
+        {
+            let slots = slots.clone();
+            let spawn_peer = spawn_peer.clone();
+            hooks::set_dialer(Some(Box::new(move |addr: &str| {
+                let mut s = slots.borrow_mut();
+                match s.iter_mut().find(|x| x.spec.addr == addr && matches!(x.spec.entry, Entry::Dialled { .. })) {
+                    Some(slot) => match spawn_peer(slot) {
+                        Some(mem) => Some(Dial::Mem(mem)),
+                        None => Some(Dial::Refused),
+                    },
+                    None => Some(Dial::Refused),
+                }
+            })));
+        }
+        let calls = Rc::new(std::cell::Cell::new(0u64));
+        {
+            let slots = slots.clone();
+            let mut script = cfg.tracker;
+            let calls = calls.clone();
+            let log = log.clone();
+            hooks::script_tracker(Some(Box::new(move |n: u64| {
+                calls.set(n + 1);
+                let step = if (n as usize) < script.len() { std::mem::replace(&mut script[n as usize], TrackerStep::Good) } else { TrackerStep::Good };
+                log.note("", format!("announce #{}", n));
+                match step {
+                    TrackerStep::Fail(e) => Err(e),
+                    TrackerStep::Body(b) => Ok(b),
+                    TrackerStep::Good => {
+                        let s = slots.borrow();
+                        let list: Vec<(String, [u8; 20])> = s.iter().filter(|x| matches!(x.spec.entry, Entry::Dialled { from_announce } if from_announce <= n)).map(|x| (x.spec.addr.clone(), x.spec.id)).collect();
+                        Ok(tracker_body(&list))
+                    }
+                }
+            })));
+        }
+        // --- session -------------------------------------------------------------------------
+        let (ctl_tx, ctl_rx) = mpsc::channel::<VerifCtl>(64);
+        let mut session = Session::new(metainfo, OWN_ID);
+        let sess = tokio::task::spawn_local(async move { session.verif_event_loop(ctl_rx, true).await });
+        // incoming connections
+        {
+            let incoming: Vec<(usize, u64)> = slots.borrow().iter().enumerate().filter_map(|(i, s)| match s.spec.entry { Entry::Incoming { at_ms } => Some((i, at_ms)), _ => None }).collect();
+            for (i, at_ms) in incoming {
+                let slots = slots.clone();
+                let spawn_peer = spawn_peer.clone();
+                let ctl = ctl_tx.clone();
+                tokio::task::spawn_local(async move {
+                    tokio::time::sleep(Duration::from_millis(at_ms)).await;
+                    let (addr, mem) = {
+                        let mut s = slots.borrow_mut();
+                        let slot = &mut s[i];
+                        (slot.spec.addr.clone(), spawn_peer(slot))
+                    };
+                    if let Some(mem) = mem {
+                        let _ = ctl.send(VerifCtl::Incoming { addr, mem }).await;
+                    }
+                });
+            }
+        }
+        let extra = cfg.driver.map(|d| tokio::task::spawn_local(d(log.clone(), ctl_tx.clone())));
+        // --- driver: wait for the stop condition (virtual time; wall clock only as watchdog) ---
+        let mut watchdog = false;
+        let mut done_at: Option<u64> = None;
+        let mut session_finished = false;
+        loop {
+            tokio::time::sleep(Duration::from_millis(50)).await;
+            let now = log.now_ms();
+            if sess.is_finished() { session_finished = true; break; }
+            if log.0.borrow().extractor_done && done_at.is_none() { done_at = Some(now); }
+            if stop_on_extract { if let Some(d) = done_at { if now >= d + linger { break; } } }
+            if let Some(h) = &extra { if h.is_finished() && !stop_on_extract { break; } }
+            if now >= max_ms { break; }
+            if wall0.elapsed().as_secs() >= wall_limit_s { watchdog = true; break; }
+        }
+        // --- is the manager still alive and answering? ------------------------------------------
+        let mut final_snapshot = None;
+        let mut alive = false;
+        if !session_finished {
+            let (tx, rx) = tokio::sync::oneshot::channel();
+            if ctl_tx.send(VerifCtl::Snapshot(tx)).await.is_ok() {
+                if let Ok(Ok(s)) = tokio::time::timeout(Duration::from_secs(5), rx).await {
+                    final_snapshot = Some(s);
+                    alive = true;
+                }
+            }
+            let _ = ctl_tx.send(VerifCtl::Stop).await;
+        }
+        let joined = tokio::time::timeout(Duration::from_secs(5), sess).await;
+        let session_panicked = matches!(&joined, Ok(Err(e)) if e.is_panic());
+        let end_ms = log.now_ms();
+        hooks::set_sink(None);
+        hooks::set_dialer(None);
+        hooks::script_tracker(None);
+        hooks::set_failpoints(None);
+        if let Some(h) = extra { h.abort(); }
+        let final_disk = log.disk_now();
+        let mut inner = log.0.borrow_mut();
+        Outcome {
+            events: std::mem::take(&mut inner.events),
+            panics: vec![],
+            session_panicked,
+            session_alive_at_end: alive,
+            final_snapshot,
+            final_disk,
+            files: BTreeMap::new(),
+            end_ms,
+            watchdog,
+            extractor: inner.extractor_text.clone(),
+            tracker_calls: calls.get(),
+        }
+    });
+    drop(local);
+    rt.shutdown_timeout(std::time::Duration::from_secs(5));
+    out.panics = panics::take();
+    // final listing of everything that is not a piece file
+    for (p, (is_dir, _, _)) in crate::checks::c03::listing(&scratch.join("cwd")) {
+        if !is_dir && p.extension().map(|e| e != "piece").unwrap_or(true) {
+            out.files.insert(p.clone(), std::fs::read(scratch.join("cwd").join(&p)).unwrap_or_default());
+        }
+    }
+    let _ = std::env::set_current_dir("/");
+    let _ = std::fs::remove_dir_all(scratch.join("cwd"));
+    out
+}
+
+// ------------------------------------------------------------------------------------------------
+// helpers over the log
+
+impl Outcome {
+    pub fn client_msgs<'a>(&'a self, addr: &'a str, conn: u32) -> impl Iterator<Item = (&'a Ev, &'a Msg)> + 'a {
+        self.events.iter().filter_map(move |e| match &e.kind {
+            EvKind::Send { msg, .. } if e.addr == addr && (conn == 0 || e.conn == conn) => Some((e, msg)),
+            _ => None,
+        })
+    }
+
+    pub fn mgr<'a>(&'a self) -> impl Iterator<Item = (&'a Ev, &'static str, &'a Rc<Snapshot>)> + 'a {
+        self.events.iter().filter_map(|e| match &e.kind {
+            EvKind::Mgr { kind, after, .. } => Some((e, *kind, after)),
+            _ => None,
+        })
+    }
+
+    pub fn conns(&self) -> Vec<(String, u32)> {
+        let mut v: Vec<(String, u32)> = self.events.iter().filter(|e| e.conn != 0).map(|e| (e.addr.clone(), e.conn)).collect();
+        v.sort();
+        v.dedup();
+        v
+    }
+
+    /// Compact textual trace for witnesses (last `n` events).
+    pub fn trace(&self, n: usize) -> Vec<String> {
+        let start = self.events.len().saturating_sub(n);
+        self.events[start..].iter().map(fmt_ev).collect()
+    }
+
+    pub fn trace_for(&self, addr: &str, n: usize) -> Vec<String> {
+        let v: Vec<String> = self.events.iter().filter(|e| e.addr == addr || matches!(e.kind, EvKind::Mgr { .. })).map(fmt_ev).collect();
+        let start = v.len().saturating_sub(n);
+        v[start..].to_vec()
+    }
+}
+
+pub fn fmt_msg(m: &Msg) -> String {
+    match m {
+        Msg::Piece(i, b, d) => format!("Piece({},{},len={})", i, b, d.len()),
+        Msg::Bitfield(b) => format!("Bitfield({})", crate::util::hex(b)),
+        Msg::Handshake { info_hash, peer_id, .. } => format!("Handshake(ih={}.., id={})", crate::util::hex(&info_hash[..4]), String::from_utf8_lossy(peer_id)),
+        Msg::Unknown(id, b) => format!("Unknown(id={},len={})", id, b.len()),
+        other => format!("{:?}", other),
+    }
+}
+
+pub fn fmt_status(s: &[rdest::verif::Status]) -> String {
+    s.iter().map(|x| match x { rdest::verif::Status::Missing => "M".to_string(), rdest::verif::Status::Have => "H".to_string(), rdest::verif::Status::Reserved(k) => format!("R{}", k) }).collect::<Vec<_>>().join("")
+}
+
+pub fn fmt_ev(e: &Ev) -> String {
+    let body = match &e.kind {
+        EvKind::Send { msg, .. } => format!("client->{} {}", e.addr, fmt_msg(msg)),
+        EvKind::RecvWait { buffered } => format!("client waits on {} (buffered {})", e.addr, buffered),
+        EvKind::Mgr { kind, arg, text, after } => format!(
+            "MGR {} {} {:?} {} | status {} | peers {}",
+            kind, e.addr, arg, text, fmt_status(&after.statuses),
+            after.peers.iter().map(|p| format!("{}[idx={:?}{}{}{}{}]", p.addr, p.piece_index, if p.choked { " choked" } else { " unchoked" }, if p.am_interested { " amI" } else { "" }, if p.am_choked { "" } else { " amU" }, if p.interested { " I" } else { "" })).collect::<Vec<_>>().join(" ")
+        ),
+        EvKind::PeerSent { msg: Some(m), .. } => format!("{}->client {}", e.addr, fmt_msg(m)),
+        EvKind::PeerSent { msg: None, raw_len } => format!("{}->client raw {} bytes", e.addr, raw_len),
+        EvKind::PeerGot { msg } => format!("{} got {}", e.addr, fmt_msg(msg)),
+        EvKind::PeerSawClose => format!("{} saw the client close", e.addr),
+        EvKind::PeerClosed => format!("{} closed", e.addr),
+        EvKind::Disk { snap } => format!("DISK valid={:?} invalid={:?}", snap.valid, snap.invalid),
+        EvKind::Note { text } => format!("note {} {}", e.addr, text),
+    };
+    format!("#{} t={}ms c{} {}", e.seq, e.ms, e.conn, body)
 }
